@@ -83,6 +83,18 @@ def enumerate_cases(tier: str):
         for warm in ("1;1;1;0;2;1\n", "1;1;2;0;2;\n", "1;1;0;0;3;relay\n", "1;255;3;0;0;55\n", "1;255;0;0;17;2.0\n", "1;255;4;0;0;ff\n"):
             for msg in ([1, 5, 3, 0, 3, ""], [255, 0, 3, 1, 4, "7"], [1, 255, 3, 0, 3, ""], [9, 254, 1, 0, 2, "a;b"], [9, 255, 0, 0, 17, "2.2.0"], [3, 255, 4, 0, 1, "ff"], [3, 1, 2, 1, 0, ""]):
                 yield {"version": version, "msg": msg, "ending": "\n", "warmup": [warm, warm]}
+        # a grid over the header space with a delimiter-carrying payload: no header point may have a private decoding path
+        if tier == "thorough" or version in ("1.4", "2.2"):
+            for node in (0, 1, 255):
+                for child, command in ((255, 0), (1, 0), (1, 1), (1, 2), (255, 3), (255, 4)):
+                    for ack in (0, 1):
+                        for mtype in range(0, 41):
+                            for text in (("a;b",) if tier == "quick" else ("a;b", ";", "x;;y;")):
+                                yield {"version": version, "msg": [node, child, command, ack, mtype, text], "ending": "\n", "warmup": []}
+        # every line-ending variant decoded first, then the encoder must still end lines with a single newline
+        for warm_end in ("\r\n", "\r", " \n", "", "\n\n"):
+            for msg in ([1, 0, 1, 0, 2, "20.5"], [0, 255, 3, 0, 9, "log"], [3, 5, 3, 1, 3, ""]):
+                yield {"version": version, "msg": msg, "ending": "\n", "warmup": [gen.line_of(msg)[:-1] + warm_end, "7;255;3;0;0;55" + warm_end]}
         # a reused schema that rejected a look-alike of the message just before (every field, every rejection class)
         for msg in ([1, 0, 1, 0, 2, "20.5"], [3, 5, 3, 0, 3, ""], [3, 255, 3, 0, 9, "log;x"], [7, 255, 0, 1, 17, "2.2"], [9, 255, 4, 0, 1, "ff"], [2, 4, 2, 0, 0, ""]):
             for pos in range(5):
